@@ -227,6 +227,13 @@ func (env *SpecEnv) eval(e *SExpr, hint types.Type) Val {
 			binds = append(binds, fmt.Sprintf("(%s %s)", name, sub.sortOf(val)))
 		}
 		body := sub.evalBool(e.Args[0])
+		if len(e.Args) > 1 {
+			var pats []string
+			for _, pe := range e.Args[1:] {
+				pats = append(pats, sub.eval(pe, nil).S)
+			}
+			body = fmt.Sprintf("(! %s :pattern (%s))", body, strings.Join(pats, " "))
+		}
 		return Val{T: tBool, S: fmt.Sprintf("(%s (%s) %s)", e.Op, strings.Join(binds, " "), body)}
 	case "call":
 		return env.call(e, hint)
